@@ -345,6 +345,13 @@ def replay(path):
                 return 0
             print("VIOLATION property=%s replay=%s" % (body["property"], path))
             return 1
+        # the kernel limits one argument to 128 KiB: longer ones travel in files
+        for i, a in enumerate(argv):
+            if len(a) > 100000:
+                fn = os.path.join(scratch_base(), "replay-arg-%d-%d" % (os.getpid(), i))
+                with open(fn, "w") as f:
+                    f.write(a)
+                argv[i] = "@file:" + fn
         p = subprocess.run([KTMC] + argv, env=offline_env({"KTMC_SCRATCH": scratch_base()}))
         if p.returncode == 1:
             print("VIOLATION property=%s replay=%s" % (body["property"], path))
